@@ -1,0 +1,9 @@
+//go:build verif
+
+package tmengine
+
+import "github.com/gordian-engine/gordian/tm/tmengine/internal/tmstate"
+
+// VerifCommitProofFinalizer exposes the state machine's internal commit proof finalizer
+// (tsi.CommitProofFinalizer) to the verification harness.
+type VerifCommitProofFinalizer = tmstate.VerifCommitProofFinalizer
